@@ -132,6 +132,12 @@ static int sample8(int f, int pl, int x, int y) {
     if (!strcmp(content, "max")) return 255;
     if (!strcmp(content, "min")) return 0;
     if (!strcmp(content, "noise")) return mix(cseed, (uint32_t)f, (uint32_t)(pl * 70000 + y), (uint32_t)x) & 255;
+    /* every sample 0 or 255, redrawn in every picture inside moving 8x8 blocks: block differences saturate 16-bit SAD accumulators */
+    if (!strcmp(content, "binary")) {
+        uint32_t t = mix(cseed, 5, (uint32_t)((sy + 2 * f) / 8), (uint32_t)((sx + 3 * f) / 8));
+        uint32_t n = mix(cseed, (uint32_t)f, (uint32_t)(pl * 70000 + y), (uint32_t)x);
+        return (((t >> 3) & 1) ^ ((n & 7) < 2)) ? 255 : 0;
+    }
     if (!strcmp(content, "screen")) {
         int bx = sx / 16, by = sy / 16;
         uint32_t c = mix(cseed, 7, (uint32_t)by, (uint32_t)bx);
